@@ -20,6 +20,8 @@ import (
 //   W : g.N<i> += 1; t = <own id>; ev3("w", <own id>, t); return t     writes then reads its local
 //   R : g.N<i> += 1; return t                                           reads a local it never assigned
 //   RW: g.N<i> += 1; t = t + 1; return t                                reads before its first write
+//   WP: g.N<i> += 1; t = <own id>; <rule-level panic>                   writes, then panics out of the rule body
+//   WE: g.N<i> += 1; t = <own id>; <failing statement>                  writes, then fails with an error
 // R and RW must fail with "not found" in every model, in every call; W must see its own value.
 
 type c15Cfg struct {
@@ -48,6 +50,10 @@ func c15Text(cfg c15Cfg) string {
 		switch k {
 		case "W":
 			fmt.Fprintf(&sb, "  t = %s\n  ev3(\"w\", %s, t)\n  return t\n", id, id)
+		case "WP": // writes its local, then panics at rule level (non-boolean condition)
+			fmt.Fprintf(&sb, "  t = %s\n  tt = 5\n  if tt {\n    t = 0\n  }\n  return t\n", id)
+		case "WE": // writes its local, then fails with an ordinary error
+			fmt.Fprintf(&sb, "  t = %s\n  zz = 1 / zero\n  return t\n", id)
 		case "R":
 			sb.WriteString("  return t\n")
 		case "RW":
@@ -98,7 +104,7 @@ func c15Scenario(cfg c15Cfg) *hx.Scenario {
 				for i, c := range st.calls {
 					c, id := c, int64(100*(i+1))
 					vsched.Go(func() {
-						data := map[string]interface{}{"req": &PoolReq{Id: id}, "g": c.g, "ev3": c.log.Ev3}
+						data := map[string]interface{}{"req": &PoolReq{Id: id}, "g": c.g, "ev3": c.log.Ev3, "zero": int64(0)}
 						c.err, c.res, c.pan = gx.PoolCallGuarded(pm, gp, data, p)
 						c.res = gx.CopyResult(c.res)
 					})
@@ -110,7 +116,7 @@ func c15Scenario(cfg c15Cfg) *hx.Scenario {
 			m := gx.ModelByName(cfg.Model)
 			p := gx.Params{B: cfg.B, N: cfg.N, M: cfg.M, Names: cfg.Names, Dag: cfg.Dag}
 			for _, c := range st.calls {
-				rb := gx.Fresh(src, c.log, map[string]interface{}{"g": c.g})
+				rb := gx.Fresh(src, c.log, map[string]interface{}{"g": c.g, "zero": int64(0)})
 				c.err, c.pan = gx.CallGuarded(func() error { return m.Call(g, rb, p) })
 				r, _ := g.GetRulesResultMap()
 				c.res = gx.CopyResult(r)
@@ -222,6 +228,10 @@ func c15Configs(thorough bool) (cfgs []c15Cfg, bounds []int) {
 			}
 		}
 	}
+	// a writer that fails after writing (by a rule-level panic / by an error) followed by readers
+	for _, w := range []string{"WP", "WE"} {
+		sets = append(sets, []string{w, "R"}, []string{w, "RW"}, []string{"W", w, "R"}, []string{w, "R", "W"}, []string{w, w, "R"})
+	}
 	for _, set := range sets {
 		for _, m := range c11Models() {
 			names := m.names
@@ -277,7 +287,7 @@ func init() {
 		BudgetQuick: 150 * time.Second,
 		BudgetThor:  25 * time.Minute,
 		Kind:        "schedules",
-		Rule: "all rule sets of 1..3 rules over {W: writes its local t then reads it back, R: reads t without assigning, RW: reads t before first write} in every salience order x all 21 engine models (x policy) x two consecutive calls on one engine; goroutine-spawning models under every schedule with <=2 (thorough 3) deviations from the default scheduler (delay bounding); plus two overlapping pool requests running the same rules with request-unique values; " +
+		Rule: "all rule sets of 1..3 rules over {W: writes its local t then reads it back, R: reads t without assigning, RW: reads t before first write} plus sets with a writer that fails after writing (rule-level panic / ordinary error) followed by readers in every salience order x all 21 engine models (x policy) x two consecutive calls on one engine; goroutine-spawning models under every schedule with <=2 (thorough 3) deviations from the default scheduler (delay bounding); plus two overlapping pool requests running the same rules with request-unique values; " +
 			"oracle: R/RW never obtain a value (no result entry, error), every W returns and reads back its own value, updates of the shared injected object are all present",
 		Assume: []string{"strict saliences", "each rule updates its own field of the shared injected object (a concurrent read-modify-write of one host field is the host's business)"},
 		Run: func(c *hx.Ctx) {
